@@ -43,6 +43,7 @@ def main():
     ap.add_argument("--all-props", action="store_true", help="run every claimed check on every seed (default: only the seed's own property)")
     ap.add_argument("--tier", default="quick")
     ap.add_argument("-v", action="store_true")
+    ap.add_argument("--jobs", type=int, default=16, help="seeds analysed concurrently")
     a = ap.parse_args()
     seeds = sorted(d for d in (VERIF / "seeded").iterdir() if d.is_dir())
     if a.seeds:
@@ -60,7 +61,7 @@ def main():
             continue
         jobs.append((s, props))
     detected = 0
-    with ThreadPoolExecutor(max_workers=16) as ex:
+    with ThreadPoolExecutor(max_workers=a.jobs) as ex:
         for name, res in ex.map(lambda j: run_one(j[0], j[1], a.tier, a.v), jobs):
             hits = [p for p, v in res.items() if isinstance(v, tuple) and v[0] == 1]
             inc = [p for p, v in res.items() if isinstance(v, tuple) and v[0] == 2]
